@@ -167,6 +167,28 @@ func analyse(sc Scenario, out *outcome, drv *lib.Driver) *caseResult {
 			byHash[b.Block.Hash.String()] = b
 		}
 	}
+	// a failed RevertHead: the listener's OnReorg(n) fires (revertHead ran) but no commit removed n
+	failedRevert := map[int]bool{}
+	{
+		lastRev := -1
+		for i, e := range out.log {
+			switch e.Kind {
+			case eReverted:
+				lastRev = i
+			case eOnReorg:
+				if lastRev < 0 || out.log[lastRev].Num != e.Num {
+					failedRevert[i] = true
+				}
+				lastRev = -1
+			}
+		}
+	}
+	if len(failedRevert) > 0 {
+		cr.hits["db:RevertHead-failed(observed)"] += len(failedRevert)
+	}
+	if out.dbFailed > 0 {
+		cr.hits["db:write-calls-failed"] += out.dbFailed
+	}
 	var chain []headRec
 	for i := 0; i < sc.Prestore && i < len(out.chains[0]); i++ {
 		chain = append(chain, headRec{uint64(i), *out.chains[0][i].Block.Hash})
@@ -221,7 +243,15 @@ func analyse(sc Scenario, out *outcome, drv *lib.Driver) *caseResult {
 			if int(e.Num) < len(cur) && cur[e.Num].Block.Hash.Equal(&e.Hash) {
 				// the source's chain holds this block: why was it reverted? (the cause decides the
 				// signature; anything not explained by exactly one documented cause stays generic)
-				switch cause, detail := revertCause(out.log[:li], e); cause {
+				cause, detail := revertCause(out.log[:li], e)
+				if cause == "" && decidedWhenAbsent(out.log[:li], e, out.chains) {
+					// the deciding answer was true when it was given (after this block had been stored):
+					// the source did not hold the block then and has taken it up again since
+					cause = "source-changed-again"
+					cr.hits["revert:decided-before-the-source-changed-again"]++
+				}
+				switch cause {
+				case "source-changed-again":
 				case "stale-successor":
 					cr.hits["revert:on-successor-fetched-before-reorg"]++
 					viol("reverted-live-block-on-successor-fetched-before-the-reorg", fmt.Sprintf(
@@ -273,8 +303,17 @@ func analyse(sc Scenario, out *outcome, drv *lib.Driver) *caseResult {
 	}
 	// every subscriber that came and went: exactly the notifications of its subscription interval
 	nv := len(cr.violations)
-	checkExtras(out.extra, stores, wantG, viol, cr.hits)
-	if out.drainLost {
+	if len(failedRevert) > 0 {
+		// RevertHead failed (injected database failure): currReorg then covers a block that was not
+		// reverted (theorem failed_revert_makes_reorg_range_wrong; RevertHead succeeding is an
+		// assumption of the notification clauses). Only the exact replay through Impl.step, which
+		// models the failure, judges the notifications of such a run.
+		cr.hits["db:notification-oracles-left-to-the-impl-replay"]++
+	} else {
+		checkExtras(out.extra, stores, wantG, viol, cr.hits)
+	}
+	if len(failedRevert) > 0 {
+	} else if out.drainLost {
 		if len(cr.violations) == nv || len(gotN) < len(stores) || len(gotG) < len(wantG) {
 			viol("feed-notification-missing", "a new-head or reorg notification owed for a stored block was not received")
 		}
@@ -428,7 +467,7 @@ func analyse(sc Scenario, out *outcome, drv *lib.Driver) *caseResult {
 		lines = append(lines, fmt.Sprintf("rounds %d src %s | loc %s", 2*(len(final)+sc.Prestore)+4, chainTokens(id, final), chainTokens(id, pre)))
 	}
 	cr.lines = lines
-	if drv != nil && !out.drainLost {
+	if drv != nil && !out.drainLost && len(failedRevert) == 0 {
 		var ans []string
 		var err error
 		for li := 0; li < len(lines); li++ {
@@ -546,7 +585,7 @@ func analyse(sc Scenario, out *outcome, drv *lib.Driver) *caseResult {
 			}
 			return o
 		}
-		diff, n, ih := implReplay(drv, id, sc, out, pre, notifOf)
+		diff, n, ih := implReplay(drv, id, sc, out, pre, notifOf, failedRevert)
 		cr.compared += n
 		for k, v := range ih {
 			cr.hits[k] += v
@@ -635,6 +674,39 @@ func revertCause(before []entry, x entry) (string, string) {
 		return "stale-successor", ""
 	}
 	return "", ""
+}
+
+// decidedWhenAbsent: the revert x was decided by an honest answer given since the last store —
+// the answer to the task's request for x's height, or else a latest header at/below x — computed in
+// an epoch whose chain does not contain x.
+func decidedWhenAbsent(before []entry, x entry, chains [][]*lib.Bundle) bool {
+	absent := func(epoch int) bool {
+		c := chains[epoch]
+		return int(x.Num) >= len(c) || !c[x.Num].Block.Hash.Equal(&x.Hash)
+	}
+	prevCommit := 0
+	for i := len(before) - 1; i >= 0; i-- {
+		if k := before[i].Kind; k == eStored || k == eReverted || k == eJump || k == eRestart {
+			prevCommit = i + 1
+			break
+		}
+	}
+	for i := len(before) - 1; i >= prevCommit; i-- {
+		e := before[i]
+		if (e.Kind == eServed || e.Kind == eServeErr) && e.Req == x.Num {
+			return e.Kind == eServed && e.Valid && e.Fault == "" && e.Num == x.Num && !e.Hash.Equal(&x.Hash) && absent(e.Epoch)
+		}
+	}
+	for i := len(before) - 1; i >= 0; i-- {
+		e := before[i]
+		if e.Kind == eStored || e.Kind == eRestart {
+			break
+		}
+		if e.Kind == eLatest && (e.Fault == "" || e.Fault == "stale") && e.Num <= x.Num && absent(e.Epoch) {
+			return true
+		}
+	}
+	return false
 }
 
 // staleSuccessor: the reverted block x was first served in some epoch E; a valid block numbered
@@ -777,14 +849,35 @@ func dynamicScenario(r *lib.RNG, i int) Scenario {
 			depth = r.Range(1, length)
 		}
 		add := r.Range(0, 6)
-		if depth == length && add < 2 {
-			add = 2 // a one-block replacement chain is the separately recorded underflow finding
+		if depth == length && add == 0 {
+			add = 1 // the source always holds at least one block
 		}
-		if depth > 0 && add == 0 {
-			add = 1 // a pure truncation is outside the property (see notes)
+		// add = 0 with depth > 0 is a pure truncation, add = 1 with depth = length a one-block
+		// replacement chain (different genesis only): both allowed
+		if e > 0 && r.Chance(1, 5) {
+			// A -> B -> A: back to a chain the source had before
+			k := r.Intn(len(sc.Epochs) - 1)
+			sc.Epochs = append(sc.Epochs, EpochSpec{Restore: &k})
+			length = -1 // recomputed below
+		} else {
+			sc.Epochs = append(sc.Epochs, EpochSpec{Depth: depth, Add: add})
+			length = length - depth + add
 		}
-		length = length - depth + add
-		sc.Epochs = append(sc.Epochs, EpochSpec{Depth: depth, Add: add})
+		if length < 0 {
+			// length of the restored chain: replay the specs
+			ls := []int{}
+			cur := 0
+			for _, sp := range sc.Epochs {
+				if sp.Restore != nil {
+					ls = append(ls, ls[*sp.Restore])
+					continue
+				}
+				cur = max(0, cur-sp.Depth) + sp.Add
+				ls = append(ls, cur)
+			}
+			length = max(1, cur)
+			_ = ls
+		}
 		var t Trigger
 		// every trigger has a request-count fallback so that the source always becomes stable
 		switch r.Intn(4) {
@@ -813,6 +906,12 @@ func dynamicScenario(r *lib.RNG, i int) Scenario {
 		sc.Faults = Faults{ErrPct: 15, DelayPct: 25, MaxDelayUs: 800, CorruptPct: 15, WrongNumPct: 8, StalePct: 30, Budget: 3}
 		if i%2 == 0 {
 			sc.Faults.LieLatestPct, sc.Faults.LieHashPct = 10, 8
+		}
+	}
+	if i%6 == 5 {
+		// transient database failures: Store / RevertHead calls that fail once
+		for k := r.Range(1, 3); k > 0; k-- {
+			sc.DBFailAt = append(sc.DBFailAt, r.Range(1, 40))
 		}
 	}
 	sc.Plugin = i%4 == 1
@@ -994,6 +1093,13 @@ func main() {
 			res.Hit("data-source:scripted-DataSource")
 		}
 		for _, e := range cr.sc.Epochs[1:] {
+			if e.Restore != nil {
+				res.Hit("epoch:back-to-an-earlier-chain(A->B->A)")
+				continue
+			}
+			if e.Depth > 0 && e.Add == 0 {
+				res.Hit("epoch:pure-truncation")
+			}
 			switch {
 			case e.Depth == 0:
 				res.Hit("reorg-depth:0(extend)")
